@@ -34,13 +34,20 @@ TASKS = [FunctionTask(CHECK_NYQUIST, clauses=["centre frequencies above Nyquist 
 
 META = dict(
     level="other",
-    explanation="proved: prepare_records_with_inconsistent_dt for the three policies (retained recordings = the subsequence with the smallest / a most "
+    explanation="proved: row bookkeeping of traditional_hvsr_processing and traditional_single_azimuth_hvsr_processing (row i = ratio from kept recording "
+                "i alone, for every arrangement of time steps; numerical stages opaque, callees by contract); "
+                "prepare_records_with_inconsistent_dt for the three policies (retained recordings = the subsequence with the smallest / a most "
                 "frequent step, as the same objects in original order; dictionary = step -> count), check_nyquist_frequency raises ValueError iff some "
                 "centre frequency exceeds 1/(2 dt); bounded: the "
                 "order / independence / policy clauses are evaluated natively for every arrangement of <=3 time steps over 1-4 recordings, 4 "
                 "methods x 3 policies, each row compared with the recording processed alone; Nyquist refusal for 11 arrangements x 6 frequencies",
     trusted_base=["A-REAL", "A-PY", "A-NP-MAX (max of an array bounds every element and is attained)", "PyVC engine + z3/cvc5"],
-    assumptions=["A-REAL", "A-PY", "A-NP-MAX", "A-DICT"],
+    assumptions=["A-REAL", "A-PY", "A-NP-MAX", "A-DICT", "A-INDUCTION (base/step lemmas proved, schema applied by hand)",
+                 "A-COUNT-TOTAL: the counts of the distinct steps add up to the number of kept recordings (driver proofs)",
+                 "A-SMOOTH-ROWWISE: each row of a smoothing operator's output is a function of the same input row, the frequency vectors and the bandwidth (C02 proves the row formula)",
+                 "smoothed vertical spectra are non-zero (the real-number ratio is defined)",
+                 "window / rfft / modulus / combination are uninterpreted array functions in the driver proofs (C01, C10, C18 hold their contracts)",
+                 "HvsrTraditional(...) stores copies of the arrays it is given (constructor: C15 / C05)"],
 )
 
 
